@@ -54,11 +54,11 @@ static const bool tp_is_bytes[TP_N] = { false, false, false, false, false, true,
 
 /* ------------------------------------------------------------------ events ---------- */
 enum kind { K_AFD_GET, K_AFD_NEW, K_AFD_PUT, K_AFD_CLOSE, K_CTX_HIT, K_CTX_NEW, K_CTX_PUT, K_CTX_FREE, K_SOCK_ID,
-	    K_LIVE, K_PEAK, K_CONN, K_END, K_STRAY, K_N };
+	    K_LIVE, K_PEAK, K_CONN, K_END, K_STRAY, K_PSTATE, K_N };
 static const char *kind_name[K_N] = { "afd_get", "afd_new", "afd_put", "afd_close", "ctx_hit", "ctx_new", "ctx_put",
-				       "ctx_free", "sock_id", "live", "peak", "conn", "end", "stray_close" };
+				       "ctx_free", "sock_id", "live", "peak", "conn", "end", "stray_close", "pstate" };
 static const char *kind_sub[K_N] = { "afd", "afd", "afd", "afd", "ctx", "ctx", "ctx", "ctx", "id",
-				      "drv", "drv", "drv", "drv", "drv" };
+				      "drv", "drv", "drv", "drv", "drv", "drv" };
 
 struct ev {
     uint64_t seq;
@@ -113,6 +113,31 @@ int __wrap_close(int fd)
 	errno = EBADF;
     }
     return rc;
+}
+
+/* process-wide state of the operating system that the library has no business changing: the file mode creation mask
+   (read without touching it, from /proc/self/status).  A thread that sees another value than the one the process
+   started with would create its own files with the wrong mode. */
+static long g_umask0 = -1;
+static long read_umask(void)
+{
+    char buf[4096];
+    int fd = open("/proc/self/status", O_RDONLY);
+    if (fd < 0)
+	return -1;
+    ssize_t n = read(fd, buf, sizeof(buf) - 1);
+    close(fd);
+    if (n <= 0)
+	return -1;
+    buf[n] = '\0';
+    const char *p = strstr(buf, "\nUmask:");
+    return p ? strtol(p + 7, NULL, 8) : -1;
+}
+static void check_pstate(void)
+{
+    long u = read_umask();
+    if (u >= 0 && g_umask0 >= 0 && u != g_umask0)
+	ev_drv(K_PSTATE, 1, g_umask0, u, 0, 0);
 }
 
 static __thread uint64_t cb_rng = 88172645463325252ULL;
@@ -1005,7 +1030,9 @@ static void *worker(void *arg)
 	    }
 	    pthread_barrier_wait(&g_bar);
 	}
+	check_pstate();
 	traffic(cs, n, &r);
+	check_pstate();
 	for (int i = 0; i < n; i++)
 	    report_conn(&cs[i]);
 	/* close a part, do the two-thread scenarios while the rest is still open, then close the rest */
@@ -1094,6 +1121,7 @@ int main(int argc, char **argv)
 	pthread_cond_init(&g_ho[i].cond, NULL);
     }
     pthread_barrier_init(&g_bar, NULL, (unsigned)g_cfg.threads);
+    g_umask0 = read_umask();
 
     if (!(g_flags & F_NOHOOKS)) {
 	xcm_verif_cb = hook_cb;
@@ -1122,6 +1150,7 @@ int main(int argc, char **argv)
     }
     for (int t = 0; t < g_cfg.threads; t++)
 	pthread_join(th[t], NULL);
+    check_pstate();
     dump_events(0);
     return 0;
 }
